@@ -32,7 +32,7 @@ META = {
     'trusted': ['reference LIMIT/OFFSET grammar+semantics per dialect (Model/Slice.lean clauseOf/sem); mysql and postgres not executable here',
                 'Python list slicing model pySlice/pyIndex (cross-checked against CPython on every case)'],
     'modelled': ['SQLite engine LIMIT/OFFSET behaviour (executed, not verified)', 'mssql/sybase/maxdb/firebird: no OFFSET support or own syntax; outside the theorem'],
-    'assumptions': ['the full ordered result list(select) is what SQLite returns for the unsliced query'],
+    'assumptions': ['the full ordered result list(select) is what SQLite returns for the unsliced query (its ORDER is checked against the requested orderBy / reversed() / declared or inherited sqlmeta.defaultOrder on every table size)'],
     'exhaustive': False,
 }
 
@@ -54,14 +54,36 @@ def env():
         for i in range(n):
             cls(v=i, w=(i * 5) % 7)
         classes[n] = cls
+        # a class with a declared default order, and a plain subclass that only inherits it
+        dname = sqlo.uniq('C10D%d_' % n)
+        meta = type('sqlmeta', (), {'defaultOrder': '-v'})
+        dcls = type(dname, (SQLObject,), {'_connection': conn, 'v': IntCol(), 'w': IntCol(), 'sqlmeta': meta})
+        scls = type(sqlo.uniq('C10S%d_' % n), (dcls,), {'_connection': conn})
+        for c in (dcls, scls):
+            c.createTable()
+            for i in range(n):
+                c(v=i, w=(i * 5) % 7)
+        classes[('dflt', n)] = dcls
+        classes[('dfltsub', n)] = scls
     _env.update(conn=conn, classes=classes)
     return _env
 
 
-VARIANTS = ['v', '-v', 'rev', 'w', 'none']
+VARIANTS = ['v', '-v', 'rev', 'w', 'none', 'wrev', 'wdesc', 'dflt', 'dfltsub']
+
+
+def requested_order(n, variant):
+    """the v values of the rows in the order the select asks for (None: no order requested)"""
+    vs = list(range(n))
+    key = {'v': lambda i: i, '-v': lambda i: -i, 'rev': lambda i: -i, 'dflt': lambda i: -i, 'dfltsub': lambda i: -i,
+           'w': lambda i: ((i * 5) % 7, i), 'wrev': lambda i: (-((i * 5) % 7), -i),
+           'wdesc': lambda i: (-((i * 5) % 7), i)}.get(variant)
+    return None if key is None else sorted(vs, key=key)
 
 
 def base_select(n, variant):
+    if variant in ('dflt', 'dfltsub'):
+        return env()['classes'][(variant, n)].select()
     cls = env()['classes'][n]
     if variant == 'v':
         return cls.select(orderBy='v')
@@ -71,6 +93,10 @@ def base_select(n, variant):
         return cls.select(orderBy='v').reversed()
     if variant == 'w':
         return cls.select(orderBy=['w', 'v'])
+    if variant == 'wrev':
+        return cls.select(orderBy=['w', 'v']).reversed()
+    if variant == 'wdesc':
+        return cls.select(orderBy=('-w', 'v'))
     return cls.select()
 
 
@@ -221,7 +247,10 @@ def run_session(n, ops, variant):
             got.append(v)
             continue
         try:
-            got.append('rows' + ''.join(' %d' % rank[o.id] for o in list(v)))
+            first = 'rows' + ''.join(' %d' % rank[o.id] for o in list(v))
+            again = 'rows' + ''.join(' %d' % rank[o.id] for o in list(v))
+            # reading a select must not change it: the second reading is reported when it differs
+            got.append(first if first == again else '%s THEN %s' % (first, again))
         except Exception as e:
             got.append('error:%s' % type(e).__name__)
     return ' ; '.join(got), ' ; '.join('rows' + ''.join(' %d' % x for x in l) for l in lists)
@@ -311,6 +340,15 @@ def run(ctx):
             ctx.compare('session on the heap of selects: translated clone/__init__/__getitem__ = SelectResults on SQLite',
                         desc, outs[nchain + sidx], got)
     k = 0
+    for n in range(0, 9):
+        for variant in VARIANTS:
+            want = requested_order(n, variant)
+            got = [o.v for o in base_select(n, variant)]
+            ctx.case(('order', n, variant), nontrivial=n > 1, kind='full-list-order')
+            if want is not None and got != want:
+                ctx.oracle_fail('C10:order %s %d' % (variant, n),
+                                'the unsliced select (order %s, %d rows) yields v = %s, the requested order is %s'
+                                % (variant, n, got, want), {'n': n, 'order_only': True, 'order': variant})
     for idx, (n, ops, ix) in enumerate(cases):
         variant = VARIANTS[idx % len(VARIANTS)]
         res, sel, full = run_impl(n, ops, ix, variant)
@@ -344,6 +382,10 @@ def run(ctx):
 
 def replay(case):
     env()
+    if case.get('order_only'):
+        want = requested_order(case['n'], case['order'])
+        got = [o.v for o in base_select(case['n'], case['order'])]
+        return got == want, 'implementation: %s\nrequested    : %s' % (got, want)
     if 'session' in case:
         got, want = run_session(case['n'], [tuple(x) for x in case['session']], case.get('order', 'v'))
         return got == want, 'implementation: %s\nlist oracle  : %s' % (got, want)
